@@ -122,7 +122,7 @@ Proof.
 Qed.
 
 (* the oracle evaluated on observed frames decides the property *)
-Theorem holds_b_iff k guard fs : holds_b k guard fs = true <-> holds k guard fs.
+Theorem holds_b_iff k g1 g3 fs : holds_b k g1 g3 fs = true <-> holds k g1 g3 fs.
 Proof.
   unfold holds_b, holds_clauses. simpl. rewrite !Bool.andb_true_iff, !Bool.orb_true_iff, !Bool.negb_true_iff.
   rewrite Nat.leb_le, all_justified_b_iff.
@@ -134,8 +134,8 @@ Proof.
     + intros Hg. destruct H1 as [H1|H1]; [congruence|exact H1].
     + intros Hg. destruct H3 as [H3|H3]; [congruence|exact H3].
   - intros [H1 H2 H3 H4 H5]. repeat split; try assumption.
-    + destruct guard; [right; apply H1; reflexivity|left; reflexivity].
-    + destruct guard; [right; apply H3; reflexivity|left; reflexivity].
+    + destruct g1; [right; apply H1; reflexivity|left; reflexivity].
+    + destruct g3; [right; apply H3; reflexivity|left; reflexivity].
 Qed.
 
 (* ---------------------------------------------------------------- effects of the phases *)
